@@ -70,11 +70,14 @@ type specGen struct {
 	maxOps int
 	noFmt  bool // no String/%v operations in this run
 	noXR   bool // no XR objects in this run
+	// generator kind of the object in a slot, where known statically (-1 otherwise)
+	slotKind []int
 }
 
 func (g *specGen) newSlot() int {
 	s := g.s.NSlots
 	g.s.NSlots++
+	g.slotKind = append(g.slotKind, -1)
 	return s
 }
 
@@ -90,6 +93,9 @@ func (g *specGen) newObjSeed(kind int, seed uint64, list bool, shared bool) int 
 		kind = kSR
 	}
 	slot := g.newSlot()
+	if !list {
+		g.slotKind[slot] = kind
+	}
 	g.s.Objects = append(g.s.Objects, ObjSpec{Slot: slot, Kind: kind, Seed: seed, List: list, Shared: shared})
 	return slot
 }
@@ -108,37 +114,71 @@ func (g *specGen) pickKind() int {
 	return k
 }
 
-// readOnlyOps appends 0..n read-only operations on packet slot a.
+// opApplies reports whether operation k is offered by packets of the given generator kind (-1 = unknown).
+func opApplies(k uint8, kind int) bool {
+	if kind < 0 {
+		return true
+	}
+	switch k {
+	case opHeader:
+		switch kind {
+		case kAPP, kTWCC, kXR, kCompound:
+			return false
+		}
+	case opLen:
+		return kind == kCCFB || kind == kTWCC
+	case opValidate, opCNAME:
+		return kind == kCompound
+	case opBlockDSSRC:
+		return kind == kXR
+	case opMarshalTo:
+		return kind == kREMB
+	case opString:
+		return kind != kAPP
+	}
+	return true
+}
+
+// readOnlyOps appends n read-only operations on packet slot a (kind = generator kind if known, else -1).
 func (g *specGen) readOnlyOps(t int, a int, n int, shared bool) {
+	kind := -1
+	if a >= 0 && a < len(g.slotKind) {
+		kind = g.slotKind[a]
+	}
 	for i := 0; i < n; i++ {
 		var k uint8
-		switch x := g.r.intn(16); {
-		case x < 3:
-			k = opSize
-		case x < 5:
-			k = opDSSRC
-		case x < 7:
-			k = opString
-		case x == 7:
-			k = opFmtV
-		case x == 8:
-			k = opFmtPV
-		case x == 9:
-			k = opHeader
-		case x == 10:
-			k = opLen
-		case x == 11:
-			k = opValidate
-		case x == 12:
-			k = opCNAME
-		case x == 13:
-			k = opBlockDSSRC
-		case x == 14:
-			k = opMarshalTo
-		default:
-			k = opMarshalSafe
-			if !shared {
-				k = opMarshal
+		for try := 0; try < 6; try++ {
+			switch x := g.r.intn(16); {
+			case x < 3:
+				k = opSize
+			case x < 5:
+				k = opDSSRC
+			case x < 7:
+				k = opString
+			case x == 7:
+				k = opFmtV
+			case x == 8:
+				k = opFmtPV
+			case x == 9:
+				k = opHeader
+			case x == 10:
+				k = opLen
+			case x == 11:
+				k = opValidate
+			case x == 12:
+				k = opCNAME
+			case x == 13:
+				k = opBlockDSSRC
+			case x == 14:
+				k = opMarshalTo
+			default:
+				k = opMarshalSafe
+				if !shared {
+					k = opMarshal
+				}
+			}
+			if opApplies(k, kind) && (kind >= 0 || try > 0 || k < opHeader || g.r.chance(3)) {
+				break
 			}
 		}
 		if g.noFmt && (k == opString || k == opFmtV || k == opFmtPV) {
@@ -153,8 +193,15 @@ func (g *specGen) readOnlyOps(t int, a int, n int, shared bool) {
 }
 
 // decodeOps appends decode operations on bytes slot a in task t and returns the packet slots produced.
+// One time in five the bytes are first re-framed with RFC-valid padding (private copy).
 func (g *specGen) decodeOps(t int, a int) []int {
 	var out []int
+	if g.r.chance(5) {
+		c := g.newSlot()
+		g.emit(t, Op{K: opCorrupt, A: a, B: c, N: 1, Seed: g.r.u64()})
+		g.s.Plan.Repad++
+		a = c
+	}
 	switch g.r.intn(6) {
 	case 0, 1, 2:
 		l := g.newSlot()
@@ -260,12 +307,21 @@ func (g *specGen) flow(p int) {
 			// the producer decodes its own datagram as well while it is in flight
 			g.decodeOps(p, b)
 		}
-	case x < 7:
+	case x < 6:
 		// malformed input: corrupt a pre-delivery copy
 		g.s.Plan.Corrupt++
 		c := g.newSlot()
 		g.emit(p, Op{K: opCorrupt, A: b, B: c, Seed: g.r.u64()})
 		g.send(p, c, g.otherTask(p), true, 0)
+	case x < 9:
+		// re-framed in flight: a copy with RFC-valid padding added to one packet (sometimes delivered twice)
+		g.s.Plan.Repad++
+		c := g.newSlot()
+		g.emit(p, Op{K: opCorrupt, A: b, B: c, N: 1, Seed: g.r.u64()})
+		g.send(p, c, g.otherTask(p), true, 0)
+		if g.r.chance(3) {
+			g.send(p, c, g.otherTask(p), true, 0)
+		}
 	default:
 		g.send(p, b, g.otherTask(p), true, 0)
 	}
